@@ -47,6 +47,9 @@ def run(ctx):
     c01.r12_units(ctx, 'R2.8')
     r29(ctx)
     r211(ctx)
+    from . import simple_append as _sa
+    _sa.restore_rule(ctx, 'R2.13')
+    r212(ctx)
     from . import c07 as _c07
     _c07.r712(ctx, 'R2.10')
     r27(ctx)
@@ -658,3 +661,17 @@ def r211(ctx, rule='R2.11'):
         any(isinstance(c, ast.Call) and callee(c) in ('np.pad',) for c in walk_no_nested(f))
     ctx.ob(rule, 'writer.encode_dict:bit-packed-run-payload-covers-the-groups-it-announces', padded,
            'header: (len(data) + 7) // 8 groups; payload: data.values.tobytes() - %s' % ([norm(r)[:80] for r in ret]), wr.loc(f))
+
+
+def r212(ctx, rule='R2.12'):
+    """find_type: TimestampType.isAdjustedToUTC says whether the stored instants are UTC-normalised, which is the case
+    exactly when the column has a time zone - any zone (values of zone-aware columns are stored as UTC)"""
+    wr = ctx.repo['writer']
+    f = wr.func('find_type')
+    tz = [st for st in walk_no_nested(f) if isinstance(st, ast.Assign) and norm(st.targets[0]) == 'tz']
+    ok = len(tz) == 1 and norm(tz[0].value) == "getattr(dtype, 'tz', None) is not None"
+    ctx.ob(rule, 'writer.find_type:adjusted-to-UTC-iff-the-column-has-a-zone', ok,
+           '`%s`: a test on the zone\'s *name* marks named non-UTC zones as not adjusted although their values are stored as UTC' % (norm(tz[0]) if tz else '?'),
+           wr.loc(tz[0]) if tz else wr.loc(f))
+    uses = [k for c in ast.walk(f) if isinstance(c, ast.Call) for k in c.keywords if k.arg == 'isAdjustedToUTC']
+    ctx.ob(rule, 'writer.find_type:every-timestamp-type-carries-that-flag', len(uses) == 3 and all(norm(k.value) == 'tz' for k in uses), str([norm(k.value) for k in uses]), wr.loc(f))
